@@ -450,6 +450,10 @@ _CASES = [  # (pipeline after `from t`, expected rows, obligation)
     ("filter (a | in 7..) | sort id | select {id}", [(1,), (3,), (5,)], "IN2"),
     ("filter (a | in ..3) | sort id | select {id}", [(2,), (4,)], "IN2"),
     ("filter (b | in a..9) | sort id | select {id}", [(2,), (4,)], "IN2"),
+    # a one-point range contains its point; a reversed range is empty (round-7 seed C02-14: PRQL ranges are inclusive, Rust's `(s..e).is_empty()` is not)
+    ("filter (a | in 7..7) | sort id | select {id}", [(1,)], "IN2"),
+    ("filter (a | in 2.0..2.0) | sort id | select {id}", [(4,)], "IN2"),
+    ("filter (a | in 9..3) | sort id | select {id}", [], "IN2"),
     ("sort id | take 2 | select {id}", [(1,), (2,)], "TK1"),
     ("sort id | take 2..3 | select {id}", [(2,), (3,)], "TK2"),
     ("sort id | take 4.. | select {id}", [(4,), (5,)], "TK2"),
